@@ -60,6 +60,14 @@ CLAIMS['C16'] = dict(
     note=('Only partition is claimed. sort, count_if, find_if, accumulate, map_reduce, partial_sum, destroy, dual_partition, permutation preservation and the std:: algorithms are NOT decided. '
           'Trusted: assumed contract for the parallel phase, std::partition stub, random-access iterators as indices.'))
 
+CLAIMS['C03'] = dict(
+    text=('Proof, per function: DoAllStealingExec::ThreadContext hasWorkWeak/hasWork/getWork/steal_from_beg/stealWork/assignWork/doWork and transferWork (every critical section keeps the lock '
+          'invariant 0 <= m_size == shared_end - shared_beg and conserves the range over the WHOLE range: piece handed out + piece left = old range; doWork executes each element of each obtained chunk '
+          'exactly once; the stolen piece reaches the thief unchanged), and ThreadPool::cascade/decascade (the wake tree covers every id of a range exactly once with strictly shorter child ranges; '
+          'the join waits for exactly the woken children before publishing done with >= release).'),
+    note=('Exactly-once for the whole loop is the composition of these per-call facts (hand-made): an index leaves a shared range only inside a piece handed to exactly one thread. Not decided: victim '
+          'selection, non-random-access iterators, termination, mutex/condvar semantics, the induction over the wake tree, runInternal. Trusted: mutual exclusion of work_mutex (C06), integer iterators.'))
+
 NA = {
     'C01': 'schedule/worklist-policy property of deeply templated executors (histories of several threads); outside CBMC\'s C++ reach and not a per-call contract',
     'C07': 'relation between different executions (determinism across schedules/thread counts) of a ~1000-line template executor; no single-call contract expresses it',
